@@ -83,10 +83,31 @@ def key_readback(y, m, d, t, err):
     """The read-back decides the leap-second count from the TT month: in the
     last TT-UTC seconds of a civil day that ends with an insertion the TT
     label is already in the next month and one second too many is removed."""
-    if (y, m, d) in iers.INSERTIONS and t[0] == 23 and t[1] == 59 \
+    to_midnight = 86400.0 - (t[0] * 3600.0 + t[1] * 60.0 + t[2])
+    if (y, m, d) in iers.INSERTIONS \
+            and to_midnight <= iers.tt_minus_utc(y, m, d) + 1.0 + 1e-3 \
             and abs(abs(err) - 1.0) < 2e-3:
         return "readback.last-seconds-before-insertion"
     return None
+
+
+# beyond the three times of day of the grid: the last and first 70 s of a
+# civil day (TT - UTC is at most 69.184 s, so the TT label of these instants
+# lies in the neighbouring day, month or year) and one time of day that
+# depends on the date
+LATE = ((23, 58, 45.0), (23, 58, 52.9), (23, 59, 0.0), (23, 59, 10.5),
+        (23, 59, 20.0), (23, 59, 27.0), (23, 59, 40.0), (23, 59, 59.9))
+EARLY = ((0, 0, 0.5), (0, 0, 20.0), (0, 0, 33.0), (0, 1, 9.0), (0, 1, 10.5))
+
+
+def times_of(y, m, d, last):
+    h = (y * 373 + m * 31 + d * 7) % 86400
+    out = TIMES + ((h // 3600, (h // 60) % 60, float(h % 60) + 0.25),)
+    if d == last:
+        out += LATE
+    if d == 1:
+        out += EARLY
+    return out
 
 
 def case_month(mon, y, m, ks):
@@ -94,9 +115,11 @@ def case_month(mon, y, m, ks):
     last = dc.month_len(y, m)
     for d in (1, 15, last):
         want = iers.tt_minus_utc(y, m, d)
-        for t in TIMES:
+        for t in times_of(y, m, d, last):
             mon.evals += 1
             ident = (y, m, d, t[0])
+            if t not in TIMES:
+                mon.cls("time-of-day-off-the-grid", (y, m, d, t))
             if m <= 2:
                 mon.cls("january-february", ident,
                         [y, m, d, t] if (y % 25 == 0 and d == 1) else None)
